@@ -259,7 +259,11 @@ def axis_random(draw):
         axis = sorted(draw(st.lists(st.integers(0, nd - 1), min_size=1, max_size=nd, unique=True)))
     qv = st.one_of(st.sampled_from([0, 100, 50]), st.floats(0, 100).map(lambda f: round(f, 1)))
     q = draw(st.one_of(qv, st.lists(qv, min_size=1, max_size=4)))
-    spec = {"array": arr, "fn": fn, "args": {"q": q, "axis": axis, "method": draw(st.sampled_from(["linear", "linear"] + METHODS)), "keepdims": draw(st.booleans())}}
+    method = draw(st.sampled_from(["linear", "linear"] + METHODS))
+    if fn == "nanpercentile" and nd > 1 and draw(st.integers(0, 3)) == 0:
+        # dask's own implementation (_custom_nanquantile: linear, last axis) -- everything else delegates to np.nanquantile per block
+        axis, method = draw(st.sampled_from([-1, nd - 1])), "linear"
+    spec = {"array": arr, "fn": fn, "args": {"q": q, "axis": axis, "method": method, "keepdims": draw(st.booleans())}}
     if fn == "nanpercentile" and draw(st.integers(0, 4)):
         # infinities only with the non-arithmetic methods (NumPy's own linear interpolation turns them into NaN)
         spec["nan"] = {"seed": draw(st.integers(0, 999)), "p": draw(st.sampled_from([0.1, 0.3, 0.6])), "slice": draw(st.booleans()), "inf": draw(st.sampled_from([0, 0, 1, 2])) if spec["args"]["method"] in ("lower", "higher", "nearest") else 0}
